@@ -462,7 +462,7 @@ pub fn property(ctx: &Ctx) -> Property {
             "pixel judgement excludes the aligned class and any case with a dash boundary within 1e-3 of a vertex (whether an epsilon-long piece turns a corner is decided by f32 rounding)",
             "the sub-pixel seam finding of C04 applies to dashed strokes with the same signature",
         ],
-        parts: vec![part("dash", 12_000, 500_000, strategy, move |c| check(c, seams_open)), part("rejected", 600, 10_000, rejected_strategy, move |c| check(c, seams_open))],
+        parts: vec![part("dash", 40_000, 800_000, strategy, move |c| check(c, seams_open)), part("rejected", 600, 10_000, rejected_strategy, move |c| check(c, seams_open))],
         min_class_fraction: vec![
             ("dash", "multi-dash", 0.5),
             ("dash", "closed-subpath", 0.3),
